@@ -67,6 +67,53 @@ def h14_mem(S, steps=4, n_msgs=2):
     run_async(main)
 
 
+def h14_requeue_cancel(S, backend="mem"):
+    """The holder's requeue is cancelled after j loop steps and followed by a reject (what the runner does on a
+    forced stop); afterwards two consumers must never hold the same id at once."""
+    from repid import Connection, InMemoryMessageBroker
+    from repid.data._key import RoutingKey
+    import repid.data._parameters as P
+
+    j = S.pick("cancel_after_steps", 8)
+    delayed = S.flag("requeue_with_delay")
+    out = {}
+
+    async def main(loop):
+        broker = InMemoryMessageBroker()
+        conn = Connection(broker)
+        await conn.connect()
+        await broker.queue_declare("default")
+        key = RoutingKey(topic="job", queue="default", id_="m0")
+        await broker.enqueue(key, "p", P.Parameters(timestamp=P.datetime.now()))
+        A, B = broker.get_consumer("default", ["job"]), broker.get_consumer("default", ["job"])
+        await A.start()
+        await B.start()
+        got = await try_consume(A)
+        assert got is not None
+        newp = P.Parameters(timestamp=P.datetime.now(), retries=P.RetriesProperties(max_amount=3, already_tried=1),
+                            delay=P.DelayProperties(next_execution_time=P.datetime.now() - real_timedelta(seconds=1)) if delayed else P.DelayProperties())
+        t = asyncio.ensure_future(broker.requeue(key, "p2", newp))
+        for _ in range(j):
+            if t.done():
+                break
+            await asyncio.sleep(0)
+        t.cancel()
+        try:
+            await t
+        except asyncio.CancelledError:
+            pass
+        await broker.reject(key)
+        ga = await try_consume(A)
+        gb = await try_consume(B)
+        out["held"] = [g[0].id_ for g in (ga, gb) if g is not None]
+
+    run_async(main)
+    S.cover("requeue-cancelled")
+    S.check("one-id-never-held-by-two-consumers", out["held"].count("m0") <= 1,
+            info=f"requeue cancelled after {j} steps then rejected: both consumers hold m0")
+    S.check("message-not-lost", out["held"].count("m0") >= 1, info="message vanished")
+
+
 def h14_redis(S, n_msgs=1, n_consumers=2, timeout_path=False):
     """Concurrent consume_or_none() of several Redis consumers: every interleaving of their round trips."""
     from fakes import redis as fr
@@ -160,6 +207,9 @@ HARNESSES = [
             bounds={"consumers": "2 on one in-memory queue", "messages": "2", "history": "4 quick / 5 thorough calls from {A.consume, B.consume, A.finish, B.finish, ack/reject by the holder}"},
             functions=["connections/in_memory/consumer.py:_InMemoryConsumer.finish", "connections/in_memory/consumer.py:_InMemoryConsumer.consume"],
             covers=["delivered", "finish", "reject"]),
+    Harness(name="H14-requeue-cancel", scenario=h14_requeue_cancel, workers=4,
+            bounds={"requeue cancelled after": "0..7 loop steps, then reject by the holder (the runner's forced-stop sequence)", "requeue": "immediate or with a past due time"},
+            functions=["connections/in_memory/message_broker.py:InMemoryMessageBroker.requeue"], covers=["requeue-cancelled"]),
     Harness(name="H14-redis-race", scenario=h14_redis, workers=16, budget_s=900,
             params={"quick": {"n_msgs": 1, "n_consumers": 2}, "thorough": {"n_msgs": 2, "n_consumers": 2}},
             bounds={"consumers": "2 RedisMessageBroker clients on one fake server, each calling consume_or_none() once, concurrently",
